@@ -66,6 +66,46 @@ def run(ctx):
         return ["(to_power_basis_model %s %s, %s, %s)" % (mat(c["n1"]), mat(c["n2"]), coq_val(obs[0][1]), coq_q(65536 * U * big ** 4))]
     correspond(ctx, "to_power_basis", tp, [("hazmat.alg_to_power_basis", lambda c: [enc_arr(c["n1"]), enc_arr(c["n2"])], whole)],
                coq_tp, HEADER, "chk_val", configs=("pure",), nontrivial=nt)
+    # ---- to_power_basis, ALL eight supported pairs (incl. the least-squares fits 2-3, 2-4, 3-3), at several sizes: the returned
+    # power-basis array must be a non-zero constant multiple of the exact resultant Res_s(B1(s) - B2(t)) (rational arithmetic).
+    # The curves are presented scaled by 2^-k (exact): the polynomial then scales by 2^(-k n1 n2 ...) - nothing absolute may enter
+    allp = []
+    for (a, b) in [(1, 1), (1, 2), (1, 3), (1, 4), (2, 2), (2, 3), (2, 4), (3, 3)] * (2 if ctx.quick() else 40):
+        c1, c2 = lattice_curve(rng, a, 4), lattice_curve(rng, b, 4)
+        try:
+            g = io._resultant_poly(c1, c2)
+        except Exception:
+            continue
+        if not any(g):
+            continue
+        for k in (0, 6, 10, 12):
+            sc = F(1, 2 ** k)
+            allp.append({"n1": [[x * sc for x in r] for r in c1], "n2": [[x * sc for x in r] for r in c2], "g": g, "k": k, "pair": (a, b)})
+
+    def judge_all(c, op, cfg, raw):
+        if "exc" in raw:
+            return "raised %s: %s" % (raw["exc"], raw.get("msg", "")[:80])
+        v = dec_res(raw["ok"])
+        v = list(v[0]) if v and isinstance(v[0], (list, tuple)) else list(v)
+        if not all(isinstance(x, F) for x in v):
+            return "non-finite coefficient"
+        g = list(c["g"]) + [F(0)] * (len(v) - len(c["g"]))
+        if len(g) > len(v):
+            if any(g[len(v):]):
+                return "returned %d coefficients, the exact polynomial has degree %d" % (len(v), len(g) - 1)
+            g = g[:len(v)]
+        gg = sum(x * x for x in g)
+        kk = sum(x * y for x, y in zip(v, g)) / gg
+        if kk == 0:
+            return "the returned polynomial is not a non-zero multiple of the exact intersection polynomial (size 2^-%d)" % c["k"]
+        dev = max(abs(x - kk * y) for x, y in zip(v, g))
+        big = max(abs(kk * y) for y in g)
+        if dev > F(1, 2 ** 24) * big:
+            return "pair %d-%d at size 2^-%d: the returned coefficients deviate from a constant multiple of the exact polynomial by %.3g of its largest coefficient" % (
+                c["pair"][0], c["pair"][1], c["k"], float(dev / big))
+        return None
+    sweep(ctx, "to_power_basis_all_pairs_all_sizes", allp,
+          [("hazmat.alg_to_power_basis", lambda c: [enc_arr(c["n1"]), enc_arr(c["n2"])])], judge_all, configs=("pure",))
     # ---- poly_to_power_basis
     pb = [{"c": [F(rng.randint(-9, 9), 2) for _ in range(rng.randint(1, 4))]} for _ in range(20 if ctx.quick() else 400)]
     pb += [{"c": [F(1)] * k} for k in (5, 6, 9)]
